@@ -104,7 +104,11 @@ func (g *gen) readFilter(t *sqlh.TableDesc, h sqlh.Handle) (sqlh.Filter, string)
 			f[k] = v
 		}
 	}
-	for n := g.R.Intn(3); n > 0; n-- {
+	extra := g.R.Intn(3)
+	if g.R.Chance(10) { // wide filters: up to every column of the table
+		extra = g.R.Intn(2 * len(t.Cols))
+	}
+	for n := extra; n > 0; n-- {
 		c := &t.Cols[g.R.Intn(len(t.Cols))]
 		if _, ok := f[c.Name]; !ok {
 			v := g.FieldValue(c)
